@@ -144,6 +144,16 @@ def str_dtor(E, st, a):
     S = Str(E, st, a[0])
     if not S.is_local(): s_delete(E, st, [S.p()])
     return None
+def str_construct_fill(E, st, a):   # _M_construct(size_type n, char c): called with _M_p = local buffer
+    this, n, c = a
+    n = E.use(st, n, 'string length')
+    if not is_c(n): n = E.concretize(st, n, 'string length')
+    Str(E, st, this).assign_bytes([c] * n); return None
+def str_resize(E, st, a):           # resize(n, c)
+    this, n, c = a
+    if not is_c(n): raise Unsupported("symbolic resize")
+    S = Str(E, st, this); d = S.data()
+    S.assign_bytes(d[:n] + [c] * max(0, n - len(d))); return None
 def str_reserve(E, st, a):
     this, n = a[0], (a[1] if len(a) > 1 else 0)
     S = Str(E, st, this)
@@ -239,6 +249,8 @@ BASIC = {
     '_ZNSt7__cxx1112basic_stringIcSt11char_traitsIcESaIcEE9_M_appendEPKcm': str_append,
     '_ZNSt7__cxx1112basic_stringIcSt11char_traitsIcESaIcEE9_M_assignERKS4_': str_assign,
     '_ZNSt7__cxx1112basic_stringIcSt11char_traitsIcESaIcEE8_M_eraseEmm': str_erase,
+    '_ZNSt7__cxx1112basic_stringIcSt11char_traitsIcESaIcEE12_M_constructEmc': str_construct_fill,
+    '_ZNSt7__cxx1112basic_stringIcSt11char_traitsIcESaIcEE6resizeEmc': str_resize,
     '_ZNSt7__cxx1112basic_stringIcSt11char_traitsIcESaIcEE7reserveEm': str_reserve,
     '_ZNSt7__cxx1112basic_stringIcSt11char_traitsIcESaIcEE7reserveEv': str_reserve,
     '_ZNSt7__cxx1112basic_stringIcSt11char_traitsIcESaIcEEC1EPKcRKS3_': str_ctor_cstr,
@@ -260,9 +272,31 @@ BASIC = {
     '_ZNSt13runtime_errorC2ERKNSt7__cxx1112basic_stringIcSt11char_traitsIcESaIcEEE': rt_error_ctor,
     '_ZNSt13runtime_errorD1Ev': s_nop, '_ZNSt13runtime_errorD2Ev': s_nop, '_ZNSt13runtime_errorD0Ev': s_nop,
     '_ZNSt9exceptionD2Ev': s_nop,
+    '_ZNSaIcEC2Ev': s_nop, '_ZNSaIcEC1Ev': s_nop, '_ZNSaIcED2Ev': s_nop, '_ZNSaIcED1Ev': s_nop, '_ZNSaIcEC2ERKS_': s_nop, '_ZNSaIcEC1ERKS_': s_nop,
 }
 
+# VTTs of libstdc++ stream classes are external data; inlined constructors/destructors read them to find the
+# virtual base (basic_ios). Model: every VTT slot points into a fake vtable whose vbase-offset entry is right.
+VTT_VBASE = {'_ZTTSt14basic_ifstreamIcSt11char_traitsIcEE': 256, '_ZTTSt14basic_ofstreamIcSt11char_traitsIcEE': 248,
+             '_ZTTSt13basic_fstreamIcSt11char_traitsIcEE': 264,
+             '_ZTTNSt7__cxx1119basic_istringstreamIcSt11char_traitsIcESaIcEEE': 120,
+             '_ZTTNSt7__cxx1119basic_ostringstreamIcSt11char_traitsIcESaIcEEE': 112,
+             '_ZTTNSt7__cxx1118basic_stringstreamIcSt11char_traitsIcESaIcEEE': 128}
+def _vtt(vbase):
+    def build(E, st, name):
+        o = Obj(8*16, name); o.const = True
+        for i in range(16): o.cells[8*i] = (8, Ptr(('g', name + '$fakevt'), 24))
+        return o
+    def build_vt(E, st, name):
+        o = Obj(64, name); o.const = True; o.cells[0] = (8, vbase); o.zero.append((8, 64)); return o
+    return build, build_vt
+
 def install(E, extra=None):
+    E.extern = getattr(E, 'extern', {})
+    for name, vb in VTT_VBASE.items():
+        b1, b2 = _vtt(vb); E.extern[name] = b1; E.extern[name + '$fakevt'] = b2
+    E.stubs.update({'_ZNSt13basic_filebufIcSt11char_traitsIcEED2Ev': s_nop, '_ZNSt13basic_filebufIcSt11char_traitsIcEED1Ev': s_nop,
+                    '_ZNSt8ios_baseD2Ev': s_nop, '_ZNSt8ios_baseC2Ev': s_nop, '_ZNSt6localeD1Ev': s_nop, '_ZNSt6localeC1Ev': s_nop})
     E.stubs.update(BASIC)
     if extra: E.stubs.update(extra)
     return E
